@@ -17,6 +17,7 @@ mod guest;
 mod addr;
 mod endian;
 mod streams;
+mod regions;
 
 use std::io::{BufRead, BufWriter, Write};
 
@@ -38,6 +39,7 @@ fn main() {
         "addr" => Box::new(addr::AddrExec::default()),
         "endian" => Box::new(endian::EndianExec::default()),
         "streams" => Box::new(streams::StreamExec::default()),
+        "regions" => Box::new(regions::RegionsExec::default()),
         _ => {
             eprintln!("unknown module {module}");
             std::process::exit(2);
